@@ -10,7 +10,7 @@ from . import c04_e2, c04_e3, common, e3
 
 PID = "C04"
 PROPS_FILE = "props/C04.v"
-MODEL_TARGETS = ["model/Noop.vo"]
+MODEL_TARGETS = ["model/Noop.vo", "model/NoopExec.vo"]
 RULE = ("E2 (correspondence): the shared online generator of harness/e2.py drives the real Workflow + "
         "Scheduler through a random prefix of transactions; every job in flight is then completed "
         "successfully until the real Scheduler.pop_next_job has nothing left; when the phase is successful "
